@@ -55,7 +55,9 @@ def analyse(P: Project) -> WaitFacts:
             return "call:" + nm + "(" + args + ")"
         return None
 
-    an, out = run_paths(wait.node, event_of=wait_events, fallible=True)
+    from ..summaries import predicate_inliner
+
+    an, out = run_paths(wait.node, event_of=wait_events, fallible=True, inliner=predicate_inliner(P, wait))
     an.parents = A.exception_parents(P)
 
     # send_message itself
